@@ -17,8 +17,12 @@ package server
 //     (what Aof.waitLockAofChannel does when the last busy channel goes idle) -> Aof.lockAcked ->
 //     AofChannel.AofAcked -> ReplicationAckDB.ProcessLeaderAofed.  The spontaneous idle flush is
 //     held back for the whole history by keeping Aof.channelActiveCount one above zero, i.e. the
-//     state "some other shard's channel is still busy";  a failing write is produced by closing
-//     the append file's descriptor first;
+//     state "some other shard's channel is still busy".  The flush is TWO writes (64-byte entries to
+//     append.aof.N, value frames to append.aof.N.dat): a failing write of either file alone is produced
+//     inside hook "aof.flush.enter" by swapping that file's handle for /dev/full (ENOSPC on every
+//     write) and swapping it back when the step says the file works again; hook "aof.flush.mid"
+//     (between the two writes) can hold the flush until the channel goroutine has handled whatever
+//     the first half already sent it;
 //   - follower links are *ReplicationServer entries in ReplicationManager.serverChannels (added
 //     with addServerChannel, removed with removeServerChannel = what commandHandleSyncCommand does
 //     when RecvProcess returns), so ReplicationManager.UpdateDBAckCount computes the quorum itself;
@@ -33,6 +37,7 @@ package server
 import (
 	"encoding/hex"
 	"fmt"
+	"net"
 	"os"
 	"path/filepath"
 	"sort"
@@ -42,6 +47,7 @@ import (
 	"testing"
 	"time"
 
+	"github.com/snower/slock/client"
 	"github.com/snower/slock/protocol"
 )
 
@@ -54,6 +60,21 @@ type vAckStep struct {
 	// (hook "ack.enter", before the shard mutex is taken) until a later "resume" step: ack-vs-timeout and
 	// ack-vs-request races
 	Park bool `json:"park"`
+	// flush: outcome of the two writes, "" (legacy: Ok=false breaks the record file for good), "ok" (the file works
+	// (again)), "fail" (every write to it fails from now on); Mid: the flush waits between its two writes until the
+	// shard's channel goroutine is idle
+	Rec string `json:"rec"`
+	Val string `json:"val"`
+	Mid bool   `json:"mid"`
+}
+
+// where the value frame of a LOCK record was to be written by the flush that carried it
+type vAckValExp struct {
+	has   bool // the record has AOF_FLAG_CONTAINS_DATA
+	known bool // the value buffer of that flush could be attributed frame by frame
+	path  string
+	off   int64
+	data  []byte
 }
 
 type vAckScenario struct {
@@ -73,7 +94,16 @@ type vAckWorld struct {
 	known    map[int64]bool     // pend event already emitted
 	links    map[int]*ReplicationServer
 	held     bool // channelActiveCount is held one above zero
-	broken   bool // the append file descriptor was closed (write failure injected)
+	recBroken bool // writes to the record file fail (its handle is swapped for /dev/full)
+	valBroken bool // writes to the value file fail
+	origRec  map[*AofFile]*os.File
+	origVal  map[*AofFile]*os.File
+	fullRec  map[*AofFile]*os.File
+	fullVal  map[*AofFile]*os.File
+	toClose  []*os.File
+	midWait  bool   // the flush in progress waits at "aof.flush.mid" for the channel goroutine
+	flushCtx string // who asked for the flush that is running (step / drain / demote / auto)
+	valExp   map[[16]byte]*vAckValExp
 	demoted  bool
 	nextId   int64
 	parkArm  int32         // 1: the next DoAckLock entered by a channel goroutine parks
@@ -83,11 +113,133 @@ type vAckWorld struct {
 	acked    map[[2]int64]bool // (follower, request): a follower sends exactly one ack frame per record
 }
 
+func vAckFullHandle() *os.File {
+	f, err := os.OpenFile("/dev/full", os.O_WRONLY, 0)
+	if err == nil {
+		return f
+	}
+	// no /dev/full: a closed descriptor fails every write as well
+	t, terr := os.CreateTemp("", "vackclosed")
+	if terr != nil {
+		panic(terr)
+	}
+	_ = os.Remove(t.Name())
+	_ = t.Close()
+	return t
+}
+
+// called at the first line of AofFile.Flush (under Aof.aofGlock): make the two files fail / work as the history says
+func (a *vAckWorld) applyFaults(af *AofFile) {
+	if a.recBroken {
+		if af.file != nil && a.fullRec[af] != af.file {
+			a.origRec[af] = af.file
+			a.fullRec[af] = vAckFullHandle()
+			a.toClose = append(a.toClose, af.file)
+			af.file = a.fullRec[af]
+		}
+	} else if o, ok := a.origRec[af]; ok {
+		if af.file == a.fullRec[af] {
+			_ = af.file.Close()
+			af.file = o
+		}
+		delete(a.origRec, af)
+		delete(a.fullRec, af)
+	}
+	if a.valBroken {
+		if af.dataFile != nil && a.fullVal[af] != af.dataFile {
+			a.origVal[af] = af.dataFile
+			a.fullVal[af] = vAckFullHandle()
+			a.toClose = append(a.toClose, af.dataFile)
+			af.dataFile = a.fullVal[af]
+		}
+	} else if o, ok := a.origVal[af]; ok {
+		if af.dataFile == a.fullVal[af] {
+			_ = af.dataFile.Close()
+			af.dataFile = o
+		}
+		delete(a.origVal, af)
+		delete(a.fullVal, af)
+	}
+}
+
+// the flush that starts now: which ack records are in the entry buffer, which of them carry a value frame and where in
+// the value file that frame is to land; what the two writes will do.  Emits the "flush" event.
+func (a *vAckWorld) observeFlush(af *AofFile) {
+	nrec := af.windex / 64
+	recFail := a.recBroken && af.file != nil && af.windex > 0
+	valFail := !recFail && a.valBroken && af.dataFile != nil && af.dwindex > 0
+	datPath := af.filename + ".dat"
+	base := int64(0)
+	if fi, err := os.Stat(datPath); err == nil {
+		base = fi.Size()
+	}
+	type rec struct {
+		aofId [16]byte
+		has   bool
+		ack   bool
+		off   int64
+		data  []byte
+	}
+	var rs []rec
+	dpos, matched := 0, true
+	for i := 0; i < nrec; i++ {
+		b := af.wbuf[i*64 : (i+1)*64]
+		var id [16]byte
+		copy(id[:], b[3:19])
+		aofFlag := uint16(b[55]) | uint16(b[56])<<8
+		r := rec{aofId: id, has: aofFlag&AOF_FLAG_CONTAINS_DATA != 0, ack: aofFlag&AOF_FLAG_REQUIRE_ACKED != 0 && b[2] == protocol.COMMAND_LOCK}
+		if r.has && matched {
+			if dpos+4 > af.dwindex {
+				matched = false
+			} else {
+				l := int(uint32(af.dwbuf[dpos]) | uint32(af.dwbuf[dpos+1])<<8 | uint32(af.dwbuf[dpos+2])<<16 | uint32(af.dwbuf[dpos+3])<<24)
+				if dpos+4+l > af.dwindex {
+					matched = false
+				} else {
+					r.off = base + int64(dpos)
+					r.data = append([]byte{}, af.dwbuf[dpos:dpos+4+l]...)
+					dpos += 4 + l
+				}
+			}
+		}
+		rs = append(rs, r)
+	}
+	if dpos != af.dwindex {
+		matched = false
+	}
+	recs := []map[string]interface{}{}
+	a.mu.Lock()
+	byAof := map[[16]byte]int64{}
+	for rid, id := range a.aofIds {
+		byAof[id] = rid
+	}
+	for _, r := range rs {
+		a.valExp[r.aofId] = &vAckValExp{has: r.has, known: matched, path: datPath, off: r.off, data: r.data}
+		if rid, ok := byAof[r.aofId]; ok && r.ack {
+			recs = append(recs, map[string]interface{}{"rid": rid, "hv": r.has})
+		}
+	}
+	a.mu.Unlock()
+	a.tr.Emit(map[string]interface{}{"e": "flush", "ok": !(recFail || valFail), "rec": !recFail, "val": !valFail, "nrec": nrec, "ndat": af.dwindex,
+		"recs": recs, "ctx": a.flushCtx, "mid": a.midWait, "t": a.now})
+}
+
 func (a *vAckWorld) hook(name string, x interface{}, y interface{}) {
 	if name == "aof.flush.enter" {
 		// every record in the write buffer is registered by now: learn the aof ids of the pending requests before
 		// the flush can complete any of them (the channel goroutine may have been parked while they were pushed)
 		a.learnPending()
+		if af, _ := x.(*AofFile); af != nil && af.mode == os.O_WRONLY && af.wbuf != nil {
+			a.applyFaults(af)
+			a.observeFlush(af)
+		}
+		return
+	}
+	if name == "aof.flush.mid" {
+		if a.midWait {
+			idle := a.waitIdleBounded(400 * time.Millisecond)
+			a.tr.Emit(map[string]interface{}{"e": "flushmid", "idle": idle, "t": a.now})
+		}
 		return
 	}
 	if name != "ack.enter" || atomic.LoadInt32(&a.inDemote) != 0 {
@@ -105,6 +257,27 @@ func (a *vAckWorld) hook(name string, x interface{}, y interface{}) {
 		<-a.parkCh
 		atomic.StoreInt32(&a.parked, 0)
 	}
+}
+
+// between the two writes of a flush: let the shard's channel goroutine handle what it has been sent so far (nothing, in
+// the code as it is); bounded, because an item that needs Aof.aofGlock would wait for this very flush
+func (a *vAckWorld) waitIdleBounded(d time.Duration) bool {
+	deadline := time.Now().Add(d)
+	okPasses := 0
+	for okPasses < 3 {
+		if a.channelsIdle() {
+			okPasses++
+		} else {
+			okPasses = 0
+		}
+		if okPasses < 3 {
+			if time.Now().After(deadline) {
+				return false
+			}
+			time.Sleep(200 * time.Microsecond)
+		}
+	}
+	return true
 }
 
 func (a *vAckWorld) resume() {
@@ -235,6 +408,25 @@ func (a *vAckWorld) onDisk(aofId [16]byte) bool {
 	return false
 }
 
+func vAckValOnDisk(exp *vAckValExp) bool {
+	f, err := os.Open(exp.path)
+	if err != nil {
+		return false
+	}
+	defer f.Close()
+	b := make([]byte, len(exp.data))
+	n, _ := f.ReadAt(b, exp.off)
+	if n != len(b) {
+		return false
+	}
+	for i := range b {
+		if b[i] != exp.data[i] {
+			return false
+		}
+	}
+	return true
+}
+
 func (a *vAckWorld) replyGate(w *vWorld, ev map[string]interface{}) {
 	rid, _ := ev["rid"].(int64)
 	if ct, _ := ev["ct"].(int); ct == int(protocol.COMMAND_LOCK) {
@@ -247,6 +439,17 @@ func (a *vAckWorld) replyGate(w *vWorld, ev map[string]interface{}) {
 			ev["pushed"] = have
 			if have {
 				ev["ondisk"] = a.onDisk(aofId)
+				// the value frame of the record, when it carries one: in the value file where its flush put it?
+				a.mu.Lock()
+				exp := a.valExp[aofId]
+				a.mu.Unlock()
+				if exp != nil {
+					ev["hasval"] = exp.has
+					if exp.has {
+						ev["valknown"] = exp.known
+						ev["valondisk"] = exp.known && vAckValOnDisk(exp)
+					}
+				}
 			} else {
 				ev["ondisk"] = false
 			}
@@ -305,16 +508,30 @@ func (a *vAckWorld) release() {
 	}
 }
 
-func (a *vAckWorld) flush(ok bool) {
+func (a *vAckWorld) flush(s *vAckStep) {
+	switch s.Rec {
+	case "ok":
+		a.recBroken = false
+	case "fail":
+		a.recBroken = true
+	default:
+		if !s.Ok {
+			a.recBroken = true // legacy step format: the record file fails for good
+		}
+	}
+	switch s.Val {
+	case "ok":
+		a.valBroken = false
+	case "fail":
+		a.valBroken = true
+	}
 	aof := a.slock.aof
 	aof.aofGlock.Lock()
+	a.midWait, a.flushCtx = s.Mid, "step"
 	if aof.aofFile != nil {
-		if !ok && !a.broken && aof.aofFile.file != nil {
-			_ = aof.aofFile.file.Close() // every later write fails
-			a.broken = true
-		}
 		_ = aof.aofFile.Flush()
 	}
+	a.midWait, a.flushCtx = false, "auto"
 	aof.aofGlock.Unlock()
 }
 
@@ -369,8 +586,7 @@ func (a *vAckWorld) runStep(s *vAckStep) {
 		if s.Park && atomic.LoadInt32(&a.parked) == 0 {
 			atomic.StoreInt32(&a.parkArm, 1)
 		}
-		a.tr.Emit(map[string]interface{}{"e": "flush", "ok": s.Ok, "t": a.now})
-		a.flush(s.Ok)
+		a.flush(s)
 	case "fack":
 		a.mu.Lock()
 		aofId, have := a.aofIds[s.Target]
@@ -424,6 +640,7 @@ func (a *vAckWorld) runStep(s *vAckStep) {
 		a.resume()
 		a.tr.Emit(map[string]interface{}{"e": "demote", "skipped": false, "t": a.now})
 		a.demoted = true
+		a.flushCtx = "demote"
 		atomic.StoreInt32(&a.inDemote, 1)
 		defer atomic.StoreInt32(&a.inDemote, 0)
 		done := make(chan error, 1)
@@ -450,13 +667,14 @@ func (a *vAckWorld) runStep(s *vAckStep) {
 		case <-time.After(60 * time.Second):
 			panic("verif: SwitchToFollower did not return within 60s")
 		}
+		a.flushCtx = "auto"
 		a.tr.Emit(map[string]interface{}{"e": "status", "status": int(a.slock.state), "t": a.now})
 	case "drain":
 		// the busy channel finishes (last flush), every ack wait times out, every hold is released
 		a.resume()
 		a.tr.Emit(map[string]interface{}{"e": "drainbegin", "t": a.now})
 		if !a.demoted {
-			a.tr.Emit(map[string]interface{}{"e": "flush", "ok": !a.broken, "t": a.now, "drain": true})
+			a.flushCtx = "drain"
 			a.release()
 			a.waitQuiescent()
 			a.hold()
@@ -497,6 +715,7 @@ func (a *vAckWorld) runStep(s *vAckStep) {
 			a.waitQuiescent()
 			a.hold()
 		}
+		a.flushCtx = "auto"
 		a.tick(18, false)
 		a.snap(true)
 		return
@@ -524,7 +743,9 @@ func TestVerifAck(t *testing.T) {
 		cfg.Concurrent = 1
 		w := vNewWorld(t, cfg, tr, 1000)
 		a := &vAckWorld{vWorld: w, aofIds: map[int64][16]byte{}, ackReq: map[int64]bool{}, known: map[int64]bool{},
-			links: map[int]*ReplicationServer{}, nextId: 1, parkCh: make(chan struct{}), acked: map[[2]int64]bool{}}
+			links: map[int]*ReplicationServer{}, nextId: 1, parkCh: make(chan struct{}), acked: map[[2]int64]bool{},
+			origRec: map[*AofFile]*os.File{}, origVal: map[*AofFile]*os.File{}, fullRec: map[*AofFile]*os.File{}, fullVal: map[*AofFile]*os.File{},
+			valExp: map[[16]byte]*vAckValExp{}, flushCtx: "auto"}
 		w.gate = a.replyGate
 		VerifPointFunc = a.hook
 		Config.AofAckMode = uint(sc.Mode)
@@ -558,6 +779,194 @@ func TestVerifAck(t *testing.T) {
 		Config.AofAckMode = 0
 		VerifPointFunc = nil
 		w.Close(true)
+		for _, f := range a.toClose {
+			_ = f.Close()
+		}
 	}
 	_ = fmt.Sprintf
+}
+
+// ---------------------------------------------------------------------------------------------
+// Engine A, follower part: the same AofFile.Flush runs on followers.  A real node in the follower
+// role (demoted through the real updateState / SwitchToFollower) gets the records of ack-required
+// locks the way ReplicationClient.Process hands them on: Aof.AppendLock (what ProcessAofAppend
+// does) and Aof.ReplayLock (what ProcessReplayLock does), in either order; the driver flushes the
+// follower's log with the same per-file failures as on the leader.  The ack frame the node sends
+// to its leader is captured on the connection of a ReplicationClient (the stream's net.Conn is
+// the recorder); at that moment the follower's two log files are re-read.
+
+type vAckFConn struct {
+	a *vAckWorld
+}
+
+func (c *vAckFConn) Read(b []byte) (int, error)         { select {} }
+func (c *vAckFConn) Close() error                       { return nil }
+func (c *vAckFConn) LocalAddr() net.Addr                { return &net.TCPAddr{} }
+func (c *vAckFConn) RemoteAddr() net.Addr               { return &net.TCPAddr{} }
+func (c *vAckFConn) SetDeadline(t time.Time) error      { return nil }
+func (c *vAckFConn) SetReadDeadline(t time.Time) error  { return nil }
+func (c *vAckFConn) SetWriteDeadline(t time.Time) error { return nil }
+func (c *vAckFConn) Write(b []byte) (int, error) {
+	a := c.a
+	for off := 0; off+64 <= len(b); off += 64 {
+		lr := &protocol.LockResultCommand{}
+		if err := lr.Decode(b[off : off+64]); err != nil {
+			a.tr.Emit(map[string]interface{}{"e": "fsent", "id": int64(-1), "undecodable": true, "t": a.now})
+			continue
+		}
+		aofId := lr.RequestId
+		a.mu.Lock()
+		id := int64(-1)
+		for rid, x := range a.aofIds {
+			if x == aofId {
+				id = rid
+			}
+		}
+		exp := a.valExp[aofId]
+		a.mu.Unlock()
+		ev := map[string]interface{}{"e": "fsent", "id": id, "aofid": hex.EncodeToString(aofId[:]), "res": int(lr.Result), "t": a.now,
+			"entry": a.onDisk(aofId)}
+		if exp != nil {
+			ev["hasval"] = exp.has
+			if exp.has {
+				ev["valknown"] = exp.known
+				ev["valondisk"] = exp.known && vAckValOnDisk(exp)
+			}
+		}
+		a.tr.Emit(ev)
+	}
+	return len(b), nil
+}
+
+type vAckFScenario struct {
+	Name  string     `json:"name"`
+	Cfg   vWorldCfg  `json:"cfg"`
+	Steps []vAckStep `json:"steps"`
+}
+
+func (a *vAckWorld) fRecord(s *vAckStep, recs map[int64]*AofLock) *AofLock {
+	if l, ok := recs[s.Id]; ok {
+		return l
+	}
+	aof := a.slock.aof
+	l := NewAofLock()
+	l.CommandType = protocol.COMMAND_LOCK
+	l.AofIndex = aof.aofFileIndex
+	l.AofOffset = aof.aofFileOffset + uint32(len(recs)) + 1
+	l.CommandTime = uint64(a.now)
+	l.DbId = uint8(s.Db)
+	l.LockId = vKey(s.Lid)
+	l.LockKey = vKey(s.Key)
+	l.ExpriedTime = uint16(s.Expried)
+	l.Count = uint16(s.Count)
+	if s.TFlag&int(protocol.TIMEOUT_FLAG_REQUIRE_ACKED) != 0 {
+		l.AofFlag |= AOF_FLAG_REQUIRE_ACKED
+	}
+	if s.Data != "" {
+		b, err := hex.DecodeString(s.Data)
+		if err != nil {
+			panic(err)
+		}
+		l.AofFlag |= AOF_FLAG_CONTAINS_DATA
+		l.data = b
+	}
+	if err := l.Encode(); err != nil {
+		panic(err)
+	}
+	recs[s.Id] = l
+	aofId := l.GetAofId()
+	a.mu.Lock()
+	a.aofIds[s.Id] = aofId
+	a.mu.Unlock()
+	a.tr.Emit(map[string]interface{}{"e": "frec", "id": s.Id, "aofid": hex.EncodeToString(aofId[:]), "ack": l.AofFlag&AOF_FLAG_REQUIRE_ACKED != 0,
+		"hasval": l.AofFlag&AOF_FLAG_CONTAINS_DATA != 0, "key": s.Key, "lid": s.Lid, "t": a.now})
+	return l
+}
+
+func TestVerifAckFollower(t *testing.T) {
+	in, out := vEnvInOut(t)
+	if in == "" {
+		return
+	}
+	var scs []vAckFScenario
+	vReadJSONLines(in, func(line []byte) {
+		var s vAckFScenario
+		vMustUnmarshal(line, &s)
+		scs = append(scs, s)
+	})
+	tr := vOpenTrace(out)
+	defer tr.Close()
+	for i, sc := range scs {
+		cfg := sc.Cfg
+		cfg.Concurrent = 1
+		w := vNewWorld(t, cfg, tr, 1000)
+		a := &vAckWorld{vWorld: w, aofIds: map[int64][16]byte{}, ackReq: map[int64]bool{}, known: map[int64]bool{},
+			links: map[int]*ReplicationServer{}, nextId: 1, parkCh: make(chan struct{}), acked: map[[2]int64]bool{},
+			origRec: map[*AofFile]*os.File{}, origVal: map[*AofFile]*os.File{}, fullRec: map[*AofFile]*os.File{}, fullVal: map[*AofFile]*os.File{},
+			valExp: map[[16]byte]*vAckValExp{}, flushCtx: "auto"}
+		m := w.slock.replicationManager
+		_ = w.db(0)
+		// the node becomes a follower the way ArbiterManager.QuitLeader does it
+		done := make(chan error, 1)
+		go func() {
+			w.slock.updateState(STATE_FOLLOWER)
+			done <- m.SwitchToFollower("")
+		}()
+		select {
+		case <-done:
+		case <-time.After(30 * time.Second):
+			panic("verif: the node did not become a follower within 30s")
+		}
+		cl := NewReplicationClient(m)
+		cl.stream = client.NewStream(&vAckFConn{a})
+		cl.closed = false
+		m.clientChannel = cl
+		VerifPointFunc = a.hook
+		a.hold()
+		tr.Emit(map[string]interface{}{"e": "begin", "name": sc.Name, "idx": i, "t": int64(1000), "mode": "ackf", "followers": 0, "ackmode": 0,
+			"state": int(w.slock.state)})
+		recs := map[int64]*AofLock{}
+		for j := range sc.Steps {
+			s := &sc.Steps[j]
+			switch s.Op {
+			case "append":
+				l := a.fRecord(s, recs)
+				a.tr.Emit(map[string]interface{}{"e": "fappend", "id": s.Id, "t": a.now})
+				_ = w.slock.aof.AppendLock(l)
+			case "replay":
+				l := a.fRecord(s, recs)
+				a.tr.Emit(map[string]interface{}{"e": "freplay", "id": s.Id, "t": a.now})
+				if err := w.slock.aof.ReplayLock(l); err != nil {
+					panic(err)
+				}
+			case "flush":
+				a.flush(s)
+			case "tick":
+				n := s.N
+				if n <= 0 {
+					n = 1
+				}
+				for k := 0; k < n; k++ {
+					a.waitQuiescent()
+					a.Tick("te")
+				}
+			default:
+				panic("unknown follower op " + s.Op)
+			}
+			a.waitQuiescent()
+			a.tr.Emit(map[string]interface{}{"e": "fquiet", "t": a.now})
+		}
+		a.flushCtx = "drain"
+		a.release()
+		a.waitQuiescent()
+		tr.Emit(map[string]interface{}{"e": "end", "name": sc.Name, "idx": i, "t": w.now, "complete": false})
+		m.glock.Lock()
+		m.clientChannel = nil
+		m.glock.Unlock()
+		VerifPointFunc = nil
+		w.Close(true)
+		for _, f := range a.toClose {
+			_ = f.Close()
+		}
+	}
 }
